@@ -432,6 +432,17 @@ def lean_obligations(v, modules, theorems_by_module, always=("CbModel", "cbdrive
             v.obligation("theorem:" + t, ok, "axioms: " + (", ".join(sorted(a)) if a is not None else "NOT FOUND"))
             if not ok:
                 failed.append("theorem:" + t)
+    if getattr(v, "tier", "quick") == "thorough":
+        # independent re-check of the compiled proof modules by leanchecker (one module per call)
+        with LeanLock():
+            for mod in theorems_by_module:
+                if not res.get(mod, (True, ""))[0]:
+                    continue
+                r = run(["lake", "env", "leanchecker", mod], cwd=LEAN)
+                ok = r.returncode == 0
+                v.obligation("leanchecker:" + mod, ok, "" if ok else r.stdout[-600:])
+                if not ok:
+                    failed.append("leanchecker:" + mod)
     return driver_ok, failed
 
 
